@@ -1088,7 +1088,9 @@ pub mod verif {
       streams.push((name.clone(), rx));
     }
     Router {
-      processor: EventProcessor::new(actors, None),
+      processor: EventProcessor::new(actors, None).with_loggers(
+        config.loggers.values().filter(|l| l.name != "root").map(|l| (l.name.clone(), l.additive)).collect(),
+      ),
       streams,
     }
   }
